@@ -15,6 +15,7 @@ import (
 
 	"github.com/google/martian/v3/h2"
 	"golang.org/x/net/http2"
+	"golang.org/x/net/http2/hpack"
 
 	"verifharness/internal/vh"
 )
@@ -31,15 +32,18 @@ var (
 	// stopped reading: the server->client writer is blocked in Write(cc) and its reader is parked.
 	// Both are enumerated with every event.
 	// DialingEvents: events while the upstream TLS handshake is still in progress.
-	DialingEvents = []string{"closing", "client-close", "write-fail-server"}
+	DialingEvents = []string{"closing", "client-close", "write-fail-server",
+		// the TCP connect succeeds and the TLS handshake then fails
+		"handshake-fail-untrusted-cert", "handshake-fail-wrong-name", "handshake-fail-garbage", "handshake-fail-server-closes"}
 )
 
 // Cell is one (event x state x delayed direction) case; Idx selects the PRNG.
 type Cell struct {
 	Kind  string `json:"kind"` // "cell"
 	Event string `json:"event"`
-	State string `json:"state"` // States or "preface"
-	Delay string `json:"delay"` // "c2s" | "s2c" ("-" for preface cells)
+	State string `json:"state"`          // States or "preface"
+	Delay string `json:"delay"`          // "c2s" | "s2c" ("-" for preface cells)
+	Proc  string `json:"proc,omitempty"` // stream processors installed in the relay: "" | "h2" | "grpc"
 	Idx   int    `json:"idx"`
 }
 
@@ -111,30 +115,32 @@ type Budget struct {
 
 func NewBudget() *Budget { return &Budget{full: map[string]int{}} }
 
-func (b *Budget) await(cond func() bool, activity func() string, sigOf func() string) (vh.Outcome, string) {
+// await waits for cond with the spin-aware session quiescence oracle. sigOf maps the
+// spin description ("" = parked) to the signature the verdict would get.
+func (b *Budget) await(cond func() bool, activity func() string, exclude map[string]bool, sigOf func(spin string) string) (vh.Outcome, string) {
 	b.mu.Lock()
 	short := b.total >= 3
 	b.mu.Unlock()
 	if short {
-		out, fp := vh.Await(cond, vh.AwaitOpts{Grace: 1500 * time.Millisecond, Samples: 4, Interval: 300 * time.Millisecond, Activity: activity})
+		out, spin := awaitSession(cond, activity, exclude, awaitOpts{Grace: 1500 * time.Millisecond, Samples: 4, Interval: 300 * time.Millisecond})
 		if out != vh.Stuck {
-			return out, fp
+			return out, spin
 		}
 		b.mu.Lock()
-		ok := b.full[sigOf()] >= 2
+		ok := b.full[sigOf(spin)] >= 2
 		b.mu.Unlock()
 		if ok {
-			return out, fp
+			return out, spin
 		}
 	}
-	out, fp := vh.Await(cond, vh.AwaitOpts{Activity: activity})
+	out, spin := awaitSession(cond, activity, exclude, awaitOpts{})
 	if out == vh.Stuck {
 		b.mu.Lock()
 		b.total++
-		b.full[sigOf()]++
+		b.full[sigOf(spin)]++
 		b.mu.Unlock()
 	}
-	return out, fp
+	return out, spin
 }
 
 // ---------------------------------------------------------------------------
@@ -168,6 +174,10 @@ type session struct {
 
 	hsGate        chan struct{} // dialing cells: the harness server starts its TLS handshake when this closes
 	hsReleased    bool
+	hsMode        string // dialing cells: how the server makes the handshake fail ("" = it does not)
+	dialAtReturn  int32  // the calling goroutine saw a dial still in progress right after Proxy returned
+	wedged        string // a relay goroutine was found spinning while the state was being established
+	gens          map[[2]uint32]*grpcGen
 	hsAbort       int32      // dialing cells: reset the TCP connection instead of handshaking
 	hsDone        chan error // result of the server-side handshake
 	delayByPush   bool       // the delayed direction is parked pushing into the peer's full output channel (no hook marker)
@@ -199,6 +209,37 @@ func (s *session) ping(e *Endpoint) ([8]byte, error) {
 	s.pingN++
 	p := PingPayload(sideByte(e), s.pingN)
 	return p, e.Ping(p)
+}
+
+// spinFuncs reduces "id|func,id|func" or "func,func" to the sorted distinct function names.
+func spinFuncs(spin string) string {
+	seen := map[string]bool{}
+	var out []string
+	for _, p := range strings.Split(spin, ",") {
+		if i := strings.Index(p, "|"); i >= 0 {
+			p = p[i+1:]
+		}
+		if p != "" && !seen[p] {
+			seen[p] = true
+			out = append(out, p)
+		}
+	}
+	sort.Strings(out)
+	return strings.Join(out, "+")
+}
+
+// dialInProgress: a goroutine of this Proxy call is still inside the TCP dial or the TLS handshake.
+func dialInProgress(exclude map[string]bool) bool {
+	for _, g := range vh.Goroutines() {
+		if exclude[g.ID] || !g.Has("h2.(*Config).Proxy") {
+			continue
+		}
+		if g.HasFrame("crypto/tls.(*Conn).Handshake") || g.HasFrame("crypto/tls.(*Conn).HandshakeContext") ||
+			g.HasFrame("net.(*Dialer).Dial") || g.HasFrame("net.(*Dialer).DialContext") || g.HasFrame("net.DialTimeout") {
+			return true
+		}
+	}
+	return false
 }
 
 func isRelayG(g vh.G) bool {
@@ -331,6 +372,9 @@ func leftClass(g vh.G) string {
 		}
 	}
 	on := strings.ReplaceAll(g.State, " ", "-")
+	if !g.Blocked() {
+		on = "spinning"
+	}
 	switch {
 	case g.HasFrame("crypto/tls.(*Conn).Read"):
 		on = "reading-upstream"
@@ -402,6 +446,7 @@ func (s *session) start() bool {
 	s.gates = NewGates()
 	s.proxyDone = make(chan struct{})
 	s.cli = NewEndpoint("client", s.cl)
+	s.cli.GiveUp = s.checkWedged
 	s.cliAlive = true
 	s.nextID = 1
 
@@ -432,9 +477,29 @@ func (s *session) start() bool {
 				return
 			}
 		}
-		tc := tls.Server(raw, &tls.Config{Certificates: []tls.Certificate{pk.Leaf}, NextProtos: []string{"h2"}})
-		if err := tc.Handshake(); err != nil {
+		cert := pk.Leaf
+		switch s.hsMode {
+		case "handshake-fail-untrusted-cert":
+			cert = pk.Untrusted
+		case "handshake-fail-wrong-name":
+			cert = pk.WrongName
+		case "handshake-fail-garbage":
+			// not TLS at all; the connection then stays open on the server side
+			raw.Write([]byte("HTTP/1.1 400 Bad Request\r\nContent-Length: 0\r\n\r\n"))
+			s.hsDone <- errors.New("harness server answered the ClientHello with plain text")
+			return
+		case "handshake-fail-server-closes":
+			// reads (part of) the ClientHello, then closes in the middle of the handshake
+			raw.Read(make([]byte, 64))
 			raw.Close()
+			s.hsDone <- errors.New("harness server closed in the middle of the handshake")
+			return
+		}
+		tc := tls.Server(raw, &tls.Config{Certificates: []tls.Certificate{cert}, NextProtos: []string{"h2"}})
+		if err := tc.Handshake(); err != nil {
+			if s.hsMode == "" {
+				raw.Close()
+			} // else: the failure is the point; the server side stays open until teardown
 			s.hsDone <- err
 			return
 		}
@@ -443,7 +508,7 @@ func (s *session) start() bool {
 	}()
 
 	u := &url.URL{Scheme: "https", Host: s.ln.Addr().String(), Path: "/"}
-	cfg := &h2.Config{RootCAs: pk.Pool}
+	cfg := &h2.Config{RootCAs: pk.Pool, StreamProcessorFactories: ProcessorFactories(s.cell.Proc)}
 	go func() {
 		err := cfg.Proxy(s.closing, s.cc, u)
 		s.fdAtReturn = -1
@@ -452,6 +517,10 @@ func (s *session) start() bool {
 			if SocketOpen(ino) {
 				s.fdAtReturn = 1
 			}
+		}
+		// (after the descriptor probe: the dump allocates and may trigger a GC cycle)
+		if s.cell.State == "dialing" && s.fdAtReturn == 1 && dialInProgress(s.base) {
+			atomic.StoreInt32(&s.dialAtReturn, 1)
 		}
 		s.proxyErr = err
 		atomic.StoreInt32(&s.returned, 1)
@@ -487,6 +556,7 @@ func (s *session) finishAccept() bool {
 		return s.fail("server-side TLS handshake did not complete")
 	}
 	s.srv = NewEndpoint("server", s.tc)
+	s.srv.GiveUp = s.checkWedged
 	s.srv.StartServer()
 	s.srvObservable, s.srvAlive = true, true
 	return true
@@ -513,7 +583,7 @@ func (s *session) handshake() bool {
 	if !s.srv.Wait(func(o *Obs) bool { return o.SettingsAcks >= 1 }) {
 		return s.fail("server never saw the SETTINGS ACK")
 	}
-	if !WaitFor(s.gates.Learned) {
+	if !s.waitFor(s.gates.Learned) {
 		return s.fail("reader hook point not reached by both directions (hits %v)", s.gates.Hits())
 	}
 	// PRNG pings around
@@ -545,6 +615,69 @@ func (s *session) pingThrough(e *Endpoint) bool {
 	return true
 }
 
+func (s *session) reqFields(id uint32, extra string) []hpack.HeaderField {
+	if s.cell.Proc == "grpc" {
+		return ReqFields(int(id), extra, hpack.HeaderField{Name: "content-type", Value: "application/grpc"},
+			hpack.HeaderField{Name: "te", Value: "trailers"})
+	}
+	return ReqFields(int(id), extra)
+}
+
+func (s *session) resFields(extra string) []hpack.HeaderField {
+	if s.cell.Proc == "grpc" {
+		return ResFields(extra, "application/grpc")
+	}
+	return ResFields(extra, "application/octet-stream")
+}
+
+// chunk returns the payload of the next DATA frame of stream id in direction dir: with the gRPC
+// adapter installed, the next piece of a gRPC-framed byte stream cut at a structural boundary;
+// otherwise 1..max stamped bytes.
+func (s *session) chunk(dir int, id uint32, max int) []byte {
+	if s.cell.Proc != "grpc" {
+		return s.payload(max)
+	}
+	return s.gen(dir, id).next()
+}
+
+func (s *session) gen(dir int, id uint32) *grpcGen {
+	if s.gens == nil {
+		s.gens = map[[2]uint32]*grpcGen{}
+	}
+	k := [2]uint32{uint32(dir), id}
+	if s.gens[k] == nil {
+		s.gens[k] = newGrpcGen(s.rng)
+	}
+	return s.gens[k]
+}
+
+// body sends the body of a complete message on stream id: DATA frames, the last with END_STREAM.
+func (s *session) body(dir int, id uint32) error {
+	e := s.sender(dir)
+	if s.cell.Proc != "grpc" {
+		return e.Data(id, true, s.payload(2000))
+	}
+	g := s.gen(dir, id)
+	for n := 1 + s.rng.Intn(3); n > 0; n-- {
+		if err := e.Data(id, false, g.next()); err != nil {
+			return err
+		}
+	}
+	return e.Data(id, true, g.finish())
+}
+
+// checkWedged is the give-up probe of the harness waits: a goroutine of the session spinning in
+// place with nothing else moving means that what is awaited will not happen.
+func (s *session) checkWedged() bool {
+	if w := spinningNow(s.activity, s.base); w != "" {
+		s.wedged = spinFuncs(w)
+		return true
+	}
+	return false
+}
+
+func (s *session) waitFor(fn func() bool) bool { return WaitForOr(fn, s.checkWedged) }
+
 func (s *session) payload(max int) []byte {
 	n := 1 + s.rng.Intn(max)
 	return vh.Stamp(uint32(s.rng.Intn(1<<20)), n)
@@ -560,26 +693,24 @@ func (s *session) newID() uint32 {
 func (s *session) exchange() bool {
 	id := s.newID()
 	if s.rng.Intn(3) == 0 {
-		if err := s.cli.Headers(id, true, ReqFields(int(id), "bodyless")); err != nil {
+		if err := s.cli.Headers(id, true, s.reqFields(id, "bodyless")); err != nil {
 			return s.fail("exchange: %v", err)
 		}
 	} else {
-		if err := s.cli.Headers(id, false, ReqFields(int(id), "body")); err != nil {
+		if err := s.cli.Headers(id, false, s.reqFields(id, "body")); err != nil {
 			return s.fail("exchange: %v", err)
 		}
-		b := s.payload(2000)
-		if err := s.cli.Data(id, true, b); err != nil {
+		if err := s.body(C2S, id); err != nil {
 			return s.fail("exchange: %v", err)
 		}
 	}
 	if !s.srv.Wait(func(o *Obs) bool { return o.EndStream[id] }) {
 		return s.fail("exchange: request on stream %d did not arrive", id)
 	}
-	if err := s.srv.Headers(id, false, ResFields("ok")); err != nil {
+	if err := s.srv.Headers(id, false, s.resFields("ok")); err != nil {
 		return s.fail("exchange: %v", err)
 	}
-	b := s.payload(2000)
-	if err := s.srv.Data(id, true, b); err != nil {
+	if err := s.body(S2C, id); err != nil {
 		return s.fail("exchange: %v", err)
 	}
 	if !s.cli.Wait(func(o *Obs) bool { return o.EndStream[id] }) {
@@ -591,13 +722,13 @@ func (s *session) exchange() bool {
 // openStream opens a stream in both directions (HEADERS without END_STREAM).
 func (s *session) openStream() (uint32, bool) {
 	id := s.newID()
-	if err := s.cli.Headers(id, false, ReqFields(int(id), "open")); err != nil {
+	if err := s.cli.Headers(id, false, s.reqFields(id, "open")); err != nil {
 		return 0, s.fail("open: %v", err)
 	}
 	if !s.srv.Wait(func(o *Obs) bool { return o.Headers[id] >= 1 }) {
 		return 0, s.fail("open: request headers on stream %d did not arrive", id)
 	}
-	if err := s.srv.Headers(id, false, ResFields("open")); err != nil {
+	if err := s.srv.Headers(id, false, s.resFields("open")); err != nil {
 		return 0, s.fail("open: %v", err)
 	}
 	if !s.cli.Wait(func(o *Obs) bool { return o.Headers[id] >= 1 }) {
@@ -636,8 +767,11 @@ func (s *session) establishMid() bool {
 		}
 		for dir := 0; dir < 2; dir++ {
 			k := s.rng.Intn(6)
+			if s.cell.Proc == "grpc" {
+				k = 4 + s.rng.Intn(3) // every kind of cut at least once per stream and direction
+			}
 			for j := 0; j < k; j++ {
-				b := s.payload(1500)
+				b := s.chunk(dir, id, 1500)
 				if err := s.sender(dir).Data(id, false, b); err != nil {
 					return s.fail("mid-stream data: %v", err)
 				}
@@ -646,6 +780,9 @@ func (s *session) establishMid() bool {
 		}
 	}
 	waitAll := s.rng.Intn(2) == 0
+	if s.cell.Proc == "grpc" {
+		waitAll = false // the adapter re-frames DATA by message: frame counts are not comparable
+	}
 	s.res.Params["open_streams"] = n
 	s.res.Params["data_awaited"] = waitAll
 	if waitAll {
@@ -1092,6 +1229,12 @@ func (s *session) runDialing() {
 		s.cli.Start()
 		s.res.Established = true
 		atomic.StoreInt32(&s.hsAbort, 1)
+	case "handshake-fail-untrusted-cert", "handshake-fail-wrong-name", "handshake-fail-garbage", "handshake-fail-server-closes":
+		s.cli.WriteRaw([]byte(ClientPreface))
+		s.cli.Settings()
+		s.cli.Start()
+		s.res.Established = true
+		s.hsMode = s.cell.Event
 	default:
 		s.fail("event %q not defined for the dialing state", s.cell.Event)
 		return
@@ -1173,7 +1316,7 @@ func (s *session) armDelay(dir int, blocked [2]string) bool {
 	if err != nil {
 		return s.fail("delay marker: %v", err)
 	}
-	if !WaitFor(s.gates.DelayHit) {
+	if !s.waitFor(s.gates.DelayHit) {
 		return s.fail("delay: direction %s never reached the reader hook point", DirName(dir))
 	}
 	s.res.Params["delay_marker"] = kind
@@ -1208,7 +1351,7 @@ func (s *session) fire() bool {
 		if x&2 != 0 {
 			// the relay acknowledges client DATA with WINDOW_UPDATEs toward the client
 			id := s.open[s.rng.Intn(len(s.open))]
-			if err := s.cli.Data(id, false, s.payload(100)); err != nil {
+			if err := s.cli.Data(id, false, s.chunk(C2S, id, 100)); err != nil {
 				return s.fail("trigger: %v", err)
 			}
 			trig = append(trig, "client-data(window-update toward client)")
@@ -1230,7 +1373,7 @@ func (s *session) fire() bool {
 		// the trigger there is the PING alone, see notes/C10.md)
 		if x := s.rng.Intn(2); len(s.open) > 0 && x == 0 && s.cell.State != "client-write-blocked" {
 			id := s.open[s.rng.Intn(len(s.open))]
-			if err := s.cli.Data(id, false, s.payload(100)); err != nil {
+			if err := s.cli.Data(id, false, s.chunk(C2S, id, 100)); err != nil {
 				return s.fail("trigger: %v", err)
 			}
 			trig = append(trig, "client-data")
@@ -1324,7 +1467,10 @@ func (s *session) violate(sig, what string, w map[string]interface{}) {
 // cc, no session goroutine remains.
 func (s *session) oracle() {
 	ev := s.cell.Event
-	sigNoReturn := func() string {
+	sigNoReturn := func(spin string) string {
+		if spin != "" {
+			return "C10:no-return:spinning:" + spinFuncs(spin)
+		}
 		gs := relayGoroutines(s.base)
 		if side := writeBlockedSide(gs); side != "" {
 			return "C10:no-return:" + ev + ":" + side + "-write-blocked"
@@ -1334,14 +1480,14 @@ func (s *session) oracle() {
 		}
 		return "C10:no-return:" + ev
 	}
-	out, _ := s.budget.await(s.hasReturned, s.activity, sigNoReturn)
+	out, spin := s.budget.await(s.hasReturned, s.activity, s.base, sigNoReturn)
 	switch out {
 	case vh.Undecided:
 		s.res.Undecided = "waiting for Proxy to return"
 		return
 	case vh.Stuck:
 		gs := relayGoroutines(s.base)
-		sig := sigNoReturn()
+		sig := sigNoReturn(spin)
 		what := "Proxy did not return after " + ev + " in state " + s.cell.State + ": every session goroutine is parked and no byte moves"
 		if strings.HasSuffix(sig, "-write-blocked") {
 			what = "Proxy did not return after " + ev + " in state " + s.cell.State + ": a writer goroutine is blocked in a Write toward a peer that no longer reads, its reader is parked behind it"
@@ -1349,7 +1495,10 @@ func (s *session) oracle() {
 		if strings.HasPrefix(sig, "C10:deadlock:") {
 			what = "Proxy did not return after " + ev + " in state " + s.cell.State + ": a relay goroutine is parked pushing into an output channel that nobody drains"
 		}
-		s.violate(sig, what, map[string]interface{}{"session_goroutines": gStrings(gs), "activity": s.activity()})
+		if spin != "" {
+			what = "Proxy did not return after " + ev + " in state " + s.cell.State + ": no byte moves, every other session goroutine is parked and the same goroutine keeps running in " + spin + " (busy loop)"
+		}
+		s.violate(sig, what, map[string]interface{}{"session_goroutines": gStrings(gs), "activity": s.activity(), "spinning": spin})
 		return
 	}
 	s.res.Returned = true
@@ -1374,14 +1523,17 @@ func (s *session) oracle() {
 	if s.cell.State == "preface" {
 		sigOpen = "C10:upstream-not-closed:preface-error"
 	}
+	if s.cell.State == "dialing" {
+		sigOpen = "C10:upstream-not-closed:dial-failed"
+	}
 	fdAtReturn := s.fdAtReturn
-	if s.cell.State == "dialing" && fdAtReturn == 1 {
+	if s.cell.State == "dialing" && fdAtReturn == 1 && atomic.LoadInt32(&s.dialAtReturn) != 0 {
 		// Proxy may return while the connection is still being established (the statement speaks of
 		// the connection "it opened"); it must then be closed as soon as it has been opened. Here the
 		// close is awaited instead of being demanded at the instant of the return.
 		sigOpen = "C10:upstream-not-closed:ended-during-dial"
 		s.res.Params["relay_socket_fd_open_at_return"] = true
-		out, _ = s.budget.await(func() bool { return !SocketOpen(s.inode) }, s.activity, func() string { return sigOpen })
+		out, _ = s.budget.await(func() bool { return !SocketOpen(s.inode) }, s.activity, s.base, func(string) string { return sigOpen })
 		switch out {
 		case vh.Undecided:
 			s.res.Undecided = "waiting for the upstream connection of an abandoned dial to be closed"
@@ -1406,7 +1558,7 @@ func (s *session) oracle() {
 		}
 		if s.srvObservable && s.srv != nil {
 			// the close must reach the harness server as EOF / reset
-			out, _ = s.budget.await(srvEnded, s.activity, func() string { return "C10:upstream-not-closed:server-saw-no-eof" })
+			out, _ = s.budget.await(srvEnded, s.activity, s.base, func(string) string { return "C10:upstream-not-closed:server-saw-no-eof" })
 			switch out {
 			case vh.Undecided:
 				s.res.Undecided = "waiting for the server to see the upstream close"
@@ -1423,7 +1575,7 @@ func (s *session) oracle() {
 	// clause 3: the caller closes cc (as proxy.go does once Proxy returned), then census
 	s.cc.Close()
 	gone := func() bool { return len(relayGoroutines(s.base)) == 0 }
-	sigLeft := func() string {
+	sigLeft := func(string) string {
 		gs := relayGoroutines(s.base)
 		if d := deadlockSig(gs); d != "" {
 			return d
@@ -1433,7 +1585,7 @@ func (s *session) oracle() {
 		}
 		return "C10:goroutine-left:" + leftClass(gs[0])
 	}
-	out, _ = s.budget.await(gone, s.activity, sigLeft)
+	out, _ = s.budget.await(gone, s.activity, s.base, sigLeft)
 	switch out {
 	case vh.Undecided:
 		s.res.Undecided = "waiting for the session goroutines to end"
@@ -1554,11 +1706,18 @@ func RunCell(c Cell, rng *rand.Rand, budget *Budget) *Result {
 	default:
 		s.fail("unknown state %q", c.State)
 	}
-	if !ok {
-		return res
+	if ok {
+		ok = s.armDelay(delay, blocked)
 	}
-	if !s.armDelay(delay, blocked) {
-		return res
+	if !ok {
+		if s.wedged == "" || s.hasReturned() {
+			return res
+		}
+		// A relay goroutine is spinning in place and nothing else moves: the state (or the delay)
+		// cannot be completed, but the session exists and a terminating event must still end it.
+		s.res.Why = ""
+		s.res.Params["relay_wedged_before_event"] = "goroutine spinning in " + s.wedged
+		s.gates.ReleaseDelay()
 	}
 	if s.hasReturned() {
 		s.fail("Proxy returned before the terminating event")
